@@ -162,10 +162,6 @@ theorem C06_exposed (mods : List (String × PyMember)) (k name : String) (id : N
     | cons b bs ih => intro d; obtain ⟨bk, bm⟩ := b; simp only [List.cons_append, walkMembers]; exact ih _
   exact key before dic
 
-theorem C06_translator_tie :
-    (["walkMaxDepth", "dataGroupTypes", "baseGroupTypes", "customGroupTypes", "groupTypes"].all
-      (fun n => !EmdGen.unavailable.contains n)) = true := by decide
-
 /-- Custom attribute nodes are never tree children: no `custom_*` type is a data group type -/
 theorem C06_custom_not_child :
     (EmdGen.customGroupTypes.all (fun t => !EmdGen.dataGroupTypes.contains t)) = true ∧
